@@ -279,4 +279,11 @@ theorem clone_deep_alignment (cx : Ctx) (h : Cells) (a : Aln) (n : Nat) (hw : Co
   have hne : c'.arr ≠ c.arr := by have := hr.2.1; have := (hw.1 c hc).1; omega
   exact ⟨Heap.read_set_other _ _ _ _ _ hne, Heap.read_set_other _ _ _ _ _ hne.symm⟩
 
+/-- the function the driver executes (`runHistory`) reports, as its last observation, the
+    observation of exactly the world that `runOps` — the function `clone_deep` and
+    `untouched_object_unchanged` speak about — reaches -/
+theorem history_observes_runOps (cx : Ctx) (w : World) (ops : List Op) :
+    ∃ res, (runHistory cx w ops).getLast? = some (res, (runOps cx w ops).view cx) :=
+  runHistory_last cx w ops
+
 end Biogo.Properties.C05
